@@ -86,6 +86,7 @@ func suiteHistory(args []string) {
 	}
 	encoderSessions(r, rep, *n)
 	userTypeShapes(r, rep)
+	embeddedShapes(rep)
 	rep.emit()
 }
 
@@ -167,6 +168,112 @@ type UserPair struct {
 	A interface{} `kmip:"ATTRIBUTE_VALUE,required"`
 	B interface{} `kmip:"KEY_VALUE"`
 	C interface{} `kmip:"ATTRIBUTE_VALUE"`
+}
+
+// user-defined structures that embed other structures (un-annotated: the library ignores such a field)
+type UEmbInner struct {
+	kmip.Tag `kmip:"CRYPTOGRAPHIC_PARAMETERS"`
+	X        int32 `kmip:"CRYPTOGRAPHIC_LENGTH"`
+}
+type UPlainInner struct {
+	D string `kmip:"DESCRIPTION"`
+}
+type UEmbLast struct {
+	kmip.Tag `kmip:"TEMPLATE_ATTRIBUTE"`
+	C        string `kmip:"COMMENT"`
+	*UPlainInner
+}
+type UHolder2 struct {
+	kmip.Tag `kmip:"REQUEST_PAYLOAD"`
+	ID       string   `kmip:"UNIQUE_IDENTIFIER,required"`
+	Details  UEmbLast `kmip:"TEMPLATE_ATTRIBUTE"`
+}
+type UEmbVal struct {
+	kmip.Tag `kmip:"REQUEST_PAYLOAD"`
+	UEmbInner
+	Y int32 `kmip:"BATCH_COUNT"`
+}
+type UEmbPtr struct {
+	kmip.Tag `kmip:"REQUEST_PAYLOAD"`
+	*UEmbInner
+	Y int32 `kmip:"BATCH_COUNT"`
+}
+type UEmbFirst struct {
+	UEmbInner
+	kmip.Tag `kmip:"RESPONSE_PAYLOAD"`
+	Y        int32 `kmip:"BATCH_COUNT"`
+}
+type UHolder struct {
+	kmip.Tag `kmip:"KEY_VALUE"`
+	OptV     UEmbVal `kmip:"REQUEST_PAYLOAD"`
+	OptP     UEmbPtr `kmip:"RESPONSE_PAYLOAD"`
+	Z        int32   `kmip:"BATCH_COUNT,required"`
+}
+
+// embeddedShapes (C13 / C18): Encode and Decode of structures with embedded structures and embedded (nil) pointers never
+// panic, and the structure goes out under the tag its OWN Tag annotation names, whatever the embedded type is annotated with
+func embeddedShapes(rep *Report) {
+	type tc struct {
+		name string
+		v    interface{}
+		tag  uint32
+	}
+	cases := []tc{
+		{"UEmbVal", UEmbVal{Y: 1}, uint32(kmip.REQUEST_PAYLOAD)}, {"UEmbVal-inner-set", UEmbVal{UEmbInner: UEmbInner{X: 5}, Y: 1}, uint32(kmip.REQUEST_PAYLOAD)},
+		{"UEmbPtr-nil", UEmbPtr{Y: 1}, uint32(kmip.REQUEST_PAYLOAD)}, {"UEmbPtr-set", UEmbPtr{UEmbInner: &UEmbInner{X: 5}, Y: 1}, uint32(kmip.REQUEST_PAYLOAD)},
+		{"UEmbPtr-nil-zero", UEmbPtr{}, uint32(kmip.REQUEST_PAYLOAD)}, {"*UEmbPtr-nil", &UEmbPtr{Y: 2}, uint32(kmip.REQUEST_PAYLOAD)},
+		{"UEmbFirst", UEmbFirst{Y: 1}, uint32(kmip.RESPONSE_PAYLOAD)}, {"UEmbFirst-inner-set", UEmbFirst{UEmbInner: UEmbInner{X: 9}, Y: 1}, uint32(kmip.RESPONSE_PAYLOAD)},
+		{"UHolder-zero-optionals", UHolder{Z: 1}, uint32(kmip.KEY_VALUE)}, {"UHolder-set", UHolder{OptV: UEmbVal{Y: 3}, OptP: UEmbPtr{UEmbInner: &UEmbInner{X: 1}, Y: 4}, Z: 1}, uint32(kmip.KEY_VALUE)},
+		{"UHolder-ptr-nil-nonzero", UHolder{OptP: UEmbPtr{Y: 4}, Z: 1}, uint32(kmip.KEY_VALUE)},
+		{"UEmbLast-nil", UEmbLast{C: "c"}, uint32(kmip.TEMPLATE_ATTRIBUTE)}, {"UEmbLast-zero", UEmbLast{}, uint32(kmip.TEMPLATE_ATTRIBUTE)},
+		{"UEmbLast-set", UEmbLast{C: "c", UPlainInner: &UPlainInner{D: "d"}}, uint32(kmip.TEMPLATE_ATTRIBUTE)},
+		{"UHolder2-details-zero", &UHolder2{ID: "42"}, uint32(kmip.REQUEST_PAYLOAD)}, {"UHolder2-details-comment", &UHolder2{ID: "42", Details: UEmbLast{C: "x"}}, uint32(kmip.REQUEST_PAYLOAD)},
+		{"UHolder2-details-inner", &UHolder2{ID: "42", Details: UEmbLast{UPlainInner: &UPlainInner{D: "d"}}}, uint32(kmip.REQUEST_PAYLOAD)},
+	}
+	for _, c := range cases {
+		var buf bytes.Buffer
+		var err error
+		panicked := ""
+		func() {
+			defer func() {
+				if p := recover(); p != nil {
+					panicked = firstLine(fmt.Sprint(p))
+				}
+			}()
+			err = kmip.NewEncoder(&buf).Encode(c.v)
+		}()
+		rep.Evaluations++
+		rep.Distribution["user-type:embedded"]++
+		out := buf.Bytes()
+		switch {
+		case panicked != "":
+			rep.Violations = append(rep.Violations, map[string]interface{}{"kind": "user-type", "what": "Encode panicked on a user-defined structure with an embedded structure / embedded pointer", "value": c.name, "panic": panicked})
+			continue
+		case err != nil && len(out) != 0:
+			rep.Violations = append(rep.Violations, map[string]interface{}{"kind": "user-type", "what": "a failed Encode wrote bytes", "value": c.name})
+		case err == nil && (len(out) < 8 || uint32(out[0])<<16|uint32(out[1])<<8|uint32(out[2]) != c.tag):
+			rep.Violations = append(rep.Violations, map[string]interface{}{"kind": "user-type-tag", "what": "the structure is not emitted under the tag its own Tag annotation names",
+				"value": c.name, "want_tag": fmt.Sprintf("%06x", c.tag), "got": firstN(hexBytes(out), 64)})
+		}
+		if err == nil && len(out) >= 8 {
+			// and it decodes again into the same type without panicking
+			rv := reflect.ValueOf(c.v)
+			if rv.Kind() == reflect.Ptr {
+				rv = rv.Elem()
+			}
+			pv := reflect.New(rv.Type())
+			func() {
+				defer func() {
+					if p := recover(); p != nil {
+						rep.Violations = append(rep.Violations, map[string]interface{}{"kind": "user-type", "what": "Decode panicked on the bytes Encode produced for a user-defined structure with an embedded structure", "value": c.name, "panic": firstLine(fmt.Sprint(p))})
+					}
+				}()
+				if derr := kmip.NewDecoder(bytes.NewReader(out)).Decode(pv.Interface()); derr != nil {
+					rep.Violations = append(rep.Violations, map[string]interface{}{"kind": "user-type", "what": "Decode rejects the bytes Encode produced for a user-defined structure with an embedded structure", "value": c.name, "error": derr.Error()})
+				}
+			}()
+		}
+	}
 }
 
 // userTypeShapes (C13 / C02): every ordered pair of dynamic element kinds in one []interface{} field: Encode must not
